@@ -228,7 +228,6 @@ def _prove_chain(u, setup, post, label, fp=False):
         ctx.ghost['requires_len'] = len(ctx.hyps)
         ctx.ghost['state'] = st
         vol, v = args
-        interp.depth = 1
         fr = interp.call_qual('gemdat.volume', 'Volume.voxel_to_frac_coords', [v], {}, bound_self=vol)
         back = interp.call_qual('gemdat.volume', 'Volume.frac_coords_to_voxel', [fr], {}, bound_self=vol)
         for lab, f in post(interp, st, back):
